@@ -288,9 +288,15 @@ static void ldpc_point (const pt_t *p)
 	char sig[200];
 	bool enc_null = false, dec_null = false;
 	int even_cols = 1;
+#ifdef VF_TRK
+	uint64_t mark0; long bad00;
+#endif
 	snprintf (g_case, sizeof g_case, "ldpc k=%d r=%d N1=%d seed=%d len=%d prefix=%d align=%d", k, r, p->N1, p->seed, len, p->prefix, p->slotmode & 7);
 	memcpy (vf_slot (), g_case, sizeof g_case);
 	run_prefix (p->prefix);
+#ifdef VF_TRK
+	mark0 = vf_trk_mark (); bad00 = vf_trk_badfree_count ();	/* everything this point allocates - library and harness - is gone at its end */
+#endif
 	vf_stat_add (st_prefixes, 1);
 	H = rfc5170_H (k, n, p->N1, (uint64_t) (unsigned) p->seed, &extra);
 	for (j = 0; j < k; j++) { int w = 0; for (i = 0; i < r; i++) w += bm_get (H, i, j); if (w & 1) even_cols = 0; }
@@ -366,6 +372,32 @@ static void ldpc_point (const pt_t *p)
 			for (j = k; j < n; j++) { if (mode == 1 && tab[j]) free (tab[j]); free (mine[j]); }
 			free (tab); free (mine);
 		}
+		/* a repair symbol asked for before its predecessor exists (NULL slots): the library may refuse, but then the
+		 * slot must not be left pointing at memory it no longer owns; the proper order afterwards gives the usual values */
+		if (len <= 4200 && n <= 400 && r >= 3 && first[k]) {
+			of_session_t *s = open_ses (3, 0, k, r, p->N1, p->seed, len, OF_ENCODER, &rej);
+			if (s) {
+				void **tab = calloc ((size_t) n, sizeof (void *));
+				of_status_t st;
+				for (i = 0; i < k; i++) tab[i] = src[i];
+				st = of_build_repair_symbol (s, tab, (UINT32) (k + 2));
+				vf_stat_add (st_trans, 1);
+				if (st != OF_STATUS_OK && tab[k + 2]) {
+#ifdef VF_TRK
+					if (!vf_trk_is_live (tab[k + 2])) { viol ("C08", "codec=ldpc|call=build|kind=refused-build-left-a-dangling-slot"); viol ("C07", "codec=ldpc|call=build|kind=refused-build-left-a-dangling-slot"); tab[k + 2] = NULL; }
+#endif
+					if (tab[k + 2]) { volatile unsigned char probe = ((unsigned char *) tab[k + 2])[0]; (void) probe; free (tab[k + 2]); tab[k + 2] = NULL; }	/* ASan variant: the read traps on freed memory */
+				}
+				if (st == OF_STATUS_OK && tab[k + 2]) { free (tab[k + 2]); tab[k + 2] = NULL; }
+				for (j = k; j < n; j++) {
+					if (of_build_repair_symbol (s, tab, (UINT32) j) != OF_STATUS_OK || !tab[j]) { viol ("C09", "codec=ldpc|kind=session-unusable-after-refused-build"); break; }
+					if (first[j] && memcmp (first[j], tab[j], (size_t) len)) { viol ("C06", "codec=ldpc|call=build|kind=rebuilt-symbol-differs|after-refused-build"); break; }
+				}
+				of_release_codec_instance (s);
+				for (j = k; j < n; j++) free (tab[j]);
+				free (tab);
+			}
+		}
 		/* encoder histories on ONE session: increasing pass, every symbol rebuilt at once into its used buffer, then a
 		 * decreasing pass (tab[j-1] is present, as the staircase needs), then NULL slots: all equal to the first pass */
 		if (len <= 4200 && n <= 400 && first[k]) {
@@ -403,6 +435,11 @@ static void ldpc_point (const pt_t *p)
 	}
 	if (k > 2000) of_release_codec_instance (se);
 	bm_free (H);
+#ifdef VF_TRK
+	if (vf_trk_live_since (mark0, NULL) != 0) viol ("C08", "codec=ldpc|kind=leak|lifecycle=encoder-and-decoder-sessions-of-one-point");
+	if (vf_trk_badfree_count () != bad00) viol ("C08", "codec=ldpc|kind=free-of-non-live-block|lifecycle=encoder");
+	if (vf_trk_old_freed ()) { viol ("C08", "codec=ldpc|kind=library-freed-application-memory|lifecycle=encoder"); viol ("C07", "codec=ldpc|kind=library-freed-application-memory|lifecycle=encoder"); }
+#endif
 	vf_stat_add (st_points, 1);
 	{ char nm[48]; snprintf (nm, sizeof nm, "ldpc:null_last=%d:extra=%d:N1even=%d", enc_null ? 1 : 0, extra, !(p->N1 & 1)); vf_outcome (nm, 1); }
 }
